@@ -264,7 +264,22 @@ pub fn record(ct: u8, ver: u16, body: &[u8]) -> Vec<u8> {
 
 /// Bytes a client may send after its ClientHello: CCS, a non-hello handshake record, app data.
 pub fn trailing(r: &mut Rng) -> Vec<u8> {
+    trailing_opt(r, false)
+}
+
+/// `second_hello`: one tail in eight holds a second ClientHello (what a client sends after a
+/// HelloRetryRequest), alone or after a CCS. Only for streams that begin with a ClientHello.
+pub fn trailing_opt(r: &mut Rng, second_hello: bool) -> Vec<u8> {
     let mut v = vec![];
+    if second_hello && r.chance(1, 8) {
+        if r.chance(1, 2) {
+            v.extend_from_slice(&record(0x14, 0x0303, &[1]));
+        }
+        let spec = random_spec(r, 700);
+        let spec = HelloSpec { coalesced_before: 0, ..spec };
+        v.extend_from_slice(&client_hello(r, &spec));
+        return v;
+    }
     // one tail in six is large (coalesced early data / a burst of application records)
     if r.chance(1, 6) {
         for _ in 0..r.urange(1, 4) {
@@ -300,4 +315,74 @@ pub fn degenerate(r: &mut Rng) -> Vec<u8> {
         v.extend_from_slice(&record(ct, ver, body));
     }
     v
+}
+
+/// A complete, well-formed ClientHello record made only of bytes that may appear inside an HTTP/1 header
+/// value: every byte below 0x80 and none of them CR or LF. (Planted look-alike for the HTTP side: bytes
+/// that are at once part of an HTTP head and a parseable TLS record.)
+pub fn ascii_client_hello(r: &mut Rng) -> Option<Vec<u8>> {
+    const A: &[u8] = b"abcdefghijklmnopqrstuvwxyzABCDEFGHIJKLMNOPQRSTUVWXYZ0123456789";
+    const SUITES: [u16; 10] = [0x1301, 0x1302, 0x1303, 0x002f, 0x0035, 0x003c, 0x003d, 0x0033, 0x0039, 0x0016];
+    for _ in 0..60 {
+        let txt = |r: &mut Rng, n: usize| -> Vec<u8> { (0..n).map(|_| A[r.usize_below(A.len())]).collect() };
+        let mut body = vec![3u8, 3];
+        body.extend_from_slice(&txt(r, 32));
+        if r.chance(1, 2) {
+            body.push(32);
+            body.extend_from_slice(&txt(r, 32));
+        } else {
+            body.push(0);
+        }
+        let n = r.urange(1, 6);
+        put16(&mut body, 2 * n);
+        for _ in 0..n {
+            put16(&mut body, *r.pick(&SUITES) as usize);
+        }
+        body.push(1);
+        body.push(0);
+        let mut eb = vec![];
+        if r.chance(3, 4) {
+            let hl = r.urange(4, 20);
+            let h = txt(r, hl);
+            let mut b = vec![];
+            put16(&mut b, h.len() + 3);
+            b.push(0);
+            put16(&mut b, h.len());
+            b.extend_from_slice(&h);
+            ext(&mut eb, 0, &b);
+        }
+        if r.chance(1, 2) {
+            ext(&mut eb, 16, &[0, 3, 2, b'h', b'2']);
+        }
+        if r.chance(1, 2) {
+            ext(&mut eb, 43, &[2, 3, 4]);
+        }
+        if r.chance(1, 2) {
+            ext(&mut eb, 0x23, &[]);
+        }
+        if r.chance(1, 2) {
+            ext(&mut eb, 0x17, &[]);
+        }
+        if r.chance(1, 3) {
+            let kx = txt(r, 32);
+            let mut b = vec![];
+            put16(&mut b, kx.len() + 4);
+            put16(&mut b, 0x001d);
+            put16(&mut b, kx.len());
+            b.extend_from_slice(&kx);
+            ext(&mut eb, 51, &b);
+        }
+        put16(&mut body, eb.len());
+        body.extend_from_slice(&eb);
+        let mut hs = vec![1u8, 0];
+        put16(&mut hs, body.len());
+        hs.extend_from_slice(&body);
+        let mut rec = vec![0x16, 3, *r.pick(&[1u8, 3])];
+        put16(&mut rec, hs.len());
+        rec.extend_from_slice(&hs);
+        if rec.iter().all(|b| *b < 0x80 && *b != b'\r' && *b != b'\n') {
+            return Some(rec);
+        }
+    }
+    None
 }
